@@ -11,6 +11,7 @@ import Gedcom.Lemmas.DiffSort
 import Gedcom.Lemmas.DiffPair
 import Gedcom.Lemmas.DiffGuard
 import Gedcom.Lemmas.StableSort
+import Gedcom.Generated.DiffSrc
 namespace Gedcom.C08
 open Gedcom Diff
 
@@ -433,6 +434,58 @@ theorem sort_kids_unique (L R : Option INode) (cs : List Diff)
 theorem isLessThan_not_strict_weak :
     swoB lessNode [.mk (lit "DATE") (lit "1900") [] [], .mk (lit "PLAC") (lit "5 Main St") [] [],
       .mk (lit "DATE") (lit "Abt. 1850") [] []] = false := by decide
+
+/-! ### the decision logic is the source's (go/ast translation, Generated/DiffSrc.lean) -/
+
+section source
+open Gedcom.DiffSrc Gedcom.Generated.DiffSrc
+
+/-- **Obligation.** Everything the translator read from `traverse` and `isLessThan` was inside its
+    fragment: the statement shapes are the expected ones, every condition uses only the atoms and
+    comparisons of its context, every assignment goes to `nd.Left` or `nd.Right`, and both operands
+    of `isLessThan` are flattened with `LeftNode()` (the model sorts by `flatten true`). -/
+theorem diff_source_translated :
+    traverseNilGuard = true ∧ traverseStatementsRecognised = true ∧ traverseLoopShape = true ∧
+    matchLoopOnlyIfs = true ∧ matchBodiesUniform = true ∧
+    (traverseAssigns.all fun g => g.cond.inFragment .side && g.slot != .bad) = true ∧
+    (matchConds.all fun c => c.inFragment .matching) = true ∧
+    lessStatementsRecognised = true ∧ lessOperands = ["LeftNode", "LeftNode"] ∧
+    (lessCases.all fun c => c.cond.inFragment .less && c.result.inFragment .less) = true ∧
+    lessDefault.inFragment .less = true := by decide
+
+/-- **The side assignments of `traverse` are the model's `fillL` / `fillR`.** Executing the source's
+    guarded assignments in order, for either side, any node and any state of the entry, sets the
+    entry's nodes to exactly what the model's `traverse` puts there. -/
+theorem traverse_sides_is_source (isLeft : Bool) (n : INode) (L R : Option INode) :
+    runGuarded isLeft n traverseAssigns (L, R) = (fillL isLeft n L, fillR isLeft n R) := by
+  cases isLeft <;> cases L <;> cases R <;> rfl
+
+/-- **The match conditions of the inner loop are the model's `matchesNode`.** A child is sent into
+    an existing entry by the source's `if` statements exactly when `Diff.matchesNode` holds. -/
+theorem traverse_match_is_source (eq : INode → INode → Bool) (k : INode) (c : Diff) :
+    runMatch eq k c matchConds = Diff.matchesNode eq k c := by
+  cases c with | mk L R cs =>
+  cases L <;> cases R <;>
+    simp [runMatch, matchConds, BExp.eval, matchAtoms, Diff.matchesNode, Diff.left, Diff.right]
+
+/-- **The comparison cascade of `isLessThan` is the model's `lessKey`**, for all pairs of keys:
+    tag sort level first, then `Years()` when both are `Yearer`s, then the value. -/
+theorem isLessThan_is_source (a b : SortKey) :
+    runCascade a b lessCases lessDefault = lessKey a b := by
+  simp only [lessCases, lessDefault, runCascade, BExp.eval, lessNe, lessLt, lessAtoms, keyOf, lessKey]
+  by_cases h : a.level = b.level
+  · simp [h]
+  · have hne : (a.level != b.level) = true := by simpa using h
+    simp only [hne, if_true]
+    exact decide_eq_decide.mpr Iff.rfl
+
+/-- the model's `traverse`, with its head and its match test replaced by the interpreted source -/
+theorem traverse_is_source (eq : INode → INode → Bool) (isLeft : Bool) (n : INode) (D : Diff) :
+    (traverse eq isLeft n D).left = (runGuarded isLeft n traverseAssigns (D.left, D.right)).1 ∧
+    (traverse eq isLeft n D).right = (runGuarded isLeft n traverseAssigns (D.left, D.right)).2 := by
+  rw [traverse_sides_is_source, traverse_left, traverse_right]
+  exact ⟨rfl, rfl⟩
+end source
 
 /-! ### deep-equal inputs -/
 
